@@ -225,6 +225,8 @@ def run(ctx, rep):
     from props import _depfilter
     _depfilter.run(F, rep, "C07")
     fresh_cell_for_new_names_only(F, rep)
+    from props import C10 as _c10x
+    _c10x.existence_is_asked_function_wide(F, rep, rule="C07.fresh-cell")
     modify_targets_a_capture(F, rep)
     cell_writes_only_by_assignments(F, rep)
     captured_values_keep_their_kind(F, rep)
